@@ -632,6 +632,7 @@ pub(crate) fn extract_post_comment(
         false
     };
 
+    let without_separator;
     let post_snippet_trimmed = if post_snippet.starts_with(|c| c == ',' || c == ':') {
         post_snippet[1..].trim_matches(white_space)
     } else if let Some(stripped) = post_snippet.strip_prefix(separator) {
@@ -645,6 +646,18 @@ pub(crate) fn extract_post_comment(
         && (!post_snippet.trim().starts_with("//") || post_snippet.trim().contains('\n'))
     {
         post_snippet[..(post_snippet.len() - 1)].trim_matches(white_space)
+    } else if let Some(pos) = post_snippet
+        .find_uncommented(separator)
+        .filter(|_| !separator.is_empty())
+    {
+        // The separator stands between two comments (`/* a */ , /* b */`): it is written
+        // right after the item, so only the comments are kept.
+        without_separator = format!(
+            "{} {}",
+            post_snippet[..pos].trim_end(),
+            post_snippet[pos + separator.len()..].trim_start()
+        );
+        without_separator.trim_matches(white_space)
     } else {
         post_snippet
     };
